@@ -128,7 +128,10 @@ def map_output(res, f):
     return " ; ".join([parts[0]] + [" ".join(["V"] + [str(f(int(x))) for x in q.split()[1:]]) for q in parts[1:]])
 
 
-NARROW = {"N8": [0, 1, 2, 7, 8, 127, 128, 200, 253, 254, 255], "N16": [0, 1, 255, 256, 257, 32767, 32768, 65000, 65533, 65534, 65535]}
+NARROW = {"N8": [0, 1, 2, 7, 8, 127, 128, 200, 253, 254, 255], "N16": [0, 1, 255, 256, 257, 32767, 32768, 65000, 65533, 65534, 65535],
+          # the library's own coordinate type std::size_t: coordinates in both halves of the index space (differences beyond 2^63) and SIZE_MAX itself
+          "N64": [0, 1, 5, 2 ** 31, 2 ** 32, 2 ** 63 - 1, 2 ** 63, 2 ** 63 + 5, 2 ** 64 - 70000, 2 ** 64 - 2, 2 ** 64 - 1]}
+NARROW_NAME = {"N8": "uint8_t", "N16": "uint16_t", "N64": "size_t, coordinates up to SIZE_MAX"}
 
 
 def narrow_stream(c, exe, n):
@@ -139,7 +142,7 @@ def narrow_stream(c, exe, n):
         K, D, ops = gen_history(c.rng, 25)
         D = min(D, 8)
         line = map_coords(case_line(K, D, ops), lambda x: x % D)
-        tag = "N8" if j % 2 == 0 else "N16"
+        tag = ("N8", "N16", "N64")[j % 3]
         pool = NARROW[tag]
         im = sorted(c.rng.sample(pool[:-1], D - 1) + [pool[-1]]) if D >= 1 else []
         small.append(line); tags.append(tag); imgs.append(im)
@@ -154,7 +157,7 @@ def narrow_stream(c, exe, n):
             nb += 1
             d = dense_eval(b.split(" ", 1)[1])
             if i != d:
-                c.violation("SpVecGF2<%s> history: implementation differs from the dense GF(2) computation (impl: %s | dense: %s)" % ("uint8_t" if b.startswith("N8") else "uint16_t", i[:150], d[:150]),
+                c.violation("SpVecGF2<%s> history: implementation differs from the dense GF(2) computation (impl: %s | dense: %s)" % (NARROW_NAME[b.split()[0]], i[:150], d[:150]),
                             {"component": "c17", "case": b, "impl": i, "model_renamed": want, "dense_reference": d}, True)
             else:
                 c.violation("correspondence c17 (model under a monotone renaming of coordinates vs SpVecGF2 over a narrow coordinate type) no longer checks, implementation agrees with the dense reference",
@@ -246,9 +249,9 @@ def replay(path):
     ok, log = lib.ensure_model()
     exe, err = lib.build_cpp(name="c17", srcs=["c17.cpp"])
     line = r["case"]
-    if "model_renamed" in r or line.split()[0] in ("N8", "N16"):      # huge or narrow coordinates: the model ran on the small pre-image; compare with the dense reference and the recorded renamed answer
+    if "model_renamed" in r or line.split()[0] in ("N8", "N16", "N64"):      # huge or narrow coordinates: the model ran on the small pre-image; compare with the dense reference and the recorded renamed answer
         i = lib.run_lines([exe], [line], par=1)[0]
-        d = dense_eval(line.split(" ", 1)[1] if line.split()[0] in ("N8", "N16") else line)
+        d = dense_eval(line.split(" ", 1)[1] if line.split()[0] in ("N8", "N16", "N64") else line)
         print("case :", line); print("impl :", i); print("dense:", d); print("model (renamed, recorded):", r.get("model_renamed", r.get("model")))
         if i != d or (r.get("model_renamed") or r.get("model") or i) != i:
             print("VIOLATION property=%s replay=%s" % (PID, path)); return 1
